@@ -76,9 +76,10 @@ def c16_concatenate_empty_row(sc, rec):
 
 
 def c05_dumper_casts_values(sc, rec):
-    """A file dumper placed mid-pipeline validates the rows it passes on: a float in a number field continues downstream
-    as a Decimal of the same value (the check assigns the key only when the rows are equal once floats and Decimals of
-    equal value are identified, the observer is a file dumper and the stream at its position is not already cast)."""
+    """A file dumper placed mid-pipeline validates the rows it passes on: values that are not yet in the native form of
+    their declared type ('' in a string field with missingValues [''], a float in a number field) continue downstream
+    cast.  The check assigns the key only when the stream at the dumper's position is not a fixed point of the schema
+    cast AND the run with the dumper is row-for-row identical to the run with a validate() step in its place."""
     d = rec.get('detail') or {}
-    return (rec.get('clause') == 'transparency:rows' and rec.get('key') == 'dumper-casts-values' and d.get('numeric_equal') is True
+    return (rec.get('clause') == 'transparency:rows' and rec.get('key') == 'dumper-casts-values' and d.get('equals_validate') is True
             and d.get('observer') in ('dump_to_path', 'dump_to_zip') and ((sc or {}).get('observer') or {}).get('step') == d.get('observer'))
